@@ -180,6 +180,12 @@ def run(rep, tier, seed, replay):
                     sj["route"], sj["depth"], outside[0], i.get("depth")), {"expr": sj["expr"], "route": sj["route"], "components": outside[0]}, impl=sj["depth"])
 
     def ask(wit):
+        if "any" in wit:
+            ms = wit["any"]
+            b = lib.parse_impl_build(h.ask(["A %d %s" % (len(ms), " ".join(hexs(e) for e in ms))])[0])
+            a = h.ask(["MA %s %d %s" % (hexs(wit["path"]), len(ms), " ".join(hexs(e) for e in ms))])[0].startswith("match")
+            comps = len([x for x in wit["path"].split("/") if x])
+            return (a and b.get("depth") == wit["depth"] and not contains(b.get("depth"), comps)), "any(%r) reports depth %s and matches %r (%d components)" % (ms, b.get("depth"), wit["path"], comps)
         b = lib.parse_impl_build(h.ask(["B " + hexs(wit["expr"])])[0])
         a = h.ask(["M %s %s" % (hexs(wit["expr"]), hexs(wit["path"]))])[0].startswith("match")
         comps = len([x for x in wit["path"].split("/") if x])
